@@ -221,19 +221,23 @@ def excepted (g : Graph) (t : List MEv) (i n : Nat) (vm : String) : Bool :=
 
 /-! ### C01: every required state is available where the worker is allowed and instructed to fetch it -/
 
+/-- is the state `vs` at hand for the test `e` (copy `n`) starting at position `i` of the trace -/
+def stateAvailable (g : Graph) (init : Store) (t : List MEv) (i : Nat) (e : MEv) (n : Nat) (vs : String × String) : Bool :=
+  let st := replayStore g init (t.take i)
+  let toks := match e.locs.find? (·.1 == vs.1) with | some (_, l) => l | none => []
+  -- the worker's own images are always at hand
+  (storeGet st (g.worker e.w).id).contains vs ||
+  toks.any (fun loc => allowedLoc g n e.w loc && (storeGet st (if loc == "" then "shared" else loc)).contains vs) ||
+  excepted g t i n vs.1
+
+/-- the starts of tests proper, with their position and the copy they execute -/
+def mainStarts (g : Graph) (t : List MEv) : List (MEv × Nat × Nat) :=
+  (t.zipIdx).filterMap (fun (e, i) =>
+    if e.kind == "start" && !e.pre then (g.copyOf e.cls e.w).map (fun n => (e, i, n)) else none)
+
 def statesViolations (g : Graph) (init : Store) (t : List MEv) : List (Nat × Nat × String × String) :=
-  (t.zipIdx).flatMap (fun (e, i) =>
-    if e.kind != "start" || e.pre then [] else
-    match g.copyOf e.cls e.w with
-    | none => []
-    | some n =>
-      let st := replayStore g init (t.take i)
-      (g.node n).gets.filterMap (fun (vm, state) =>
-        let toks := match e.locs.find? (·.1 == vm) with | some (_, l) => l | none => []
-        let own := (storeGet st (g.worker e.w).id).contains (vm, state)   -- the worker's own images are always at hand
-        let listed := toks.any (fun loc =>
-          allowedLoc g n e.w loc && (storeGet st (if loc == "" then "shared" else loc)).contains (vm, state))
-        if own || listed || excepted g t i n vm then none else some (e.w, e.cls, vm, state)))
+  (mainStarts g t).flatMap (fun (e, i, n) =>
+    ((g.node n).gets.filter (fun vs => !stateAvailable g init t i e n vs)).map (fun vs => (e.w, e.cls, vs.1, vs.2)))
 
 def statesOk (g : Graph) (init : Store) (t : List MEv) : Bool := (statesViolations g init t).isEmpty
 
